@@ -28,6 +28,7 @@ class GeckoWatercareProtocolHandler(GeckoPacketProtocolHandler):
     def request(seq, **kwargs):
         return GeckoWatercareProtocolHandler(
             content=b"".join([GETWC_VERB, struct.pack(">B", seq)]),
+            expect=WCGET_VERB,
             timeout=GeckoConfig.PROTOCOL_TIMEOUT_IN_SECONDS,
             retry_count=GeckoConfig.PROTOCOL_RETRY_COUNT,
             on_retry_failed=GeckoPacketProtocolHandler._default_retry_failed_handler,
@@ -40,6 +41,7 @@ class GeckoWatercareProtocolHandler(GeckoPacketProtocolHandler):
             content=b"".join(
                 [SETWC_VERB, struct.pack(SET_WATERCARE_FORMAT, seq, mode)]
             ),
+            expect=WCSET_VERB,
             timeout=GeckoConfig.PROTOCOL_TIMEOUT_IN_SECONDS,
             retry_count=GeckoConfig.PROTOCOL_RETRY_COUNT,
             **kwargs,
@@ -78,8 +80,13 @@ class GeckoWatercareProtocolHandler(GeckoPacketProtocolHandler):
         super().__init__(**kwargs)
         self.mode: Optional[int] = None
         self.schedule = False
+        self._expect: Optional[bytes] = kwargs.get("expect", None)
 
     def can_handle(self, received_bytes: bytes, sender: tuple) -> bool:
+        if self._expect is not None:
+            # A request only accepts the reply to itself, not a stale reply
+            # to some other watercare request
+            return received_bytes.startswith(self._expect)
         return (
             received_bytes.startswith(GETWC_VERB)
             or received_bytes.startswith(WCGET_VERB)
